@@ -145,9 +145,13 @@ func c19Gen(r *Run, rng *gen.Rng, corpus []string) *c19Inv {
 	inv := &c19Inv{Valid: true, ProgKind: "valid", Family: "base"}
 	// input file name variants
 	main := gw.Main
+	renamed := false
 	if rng.Chance(55) {
+		renamed = true
 		nm := rng.Pick([]string{"a.b.tsh", "noext", "my prog.tsh", "rel.v1/prog.tsh", "x.y.z", "UPPER.TSH", "prog.tsh.bak", "sub dir/m.tsh", "p.", "tsh", "bash", "batch", "out", "-x.tsh", "my%20prog.tsh", "100%.tsh", "50%done.v2.tsh", "%s.tsh", "report[1].tsh", "a*b.tsh", "q?.tsh",
 			"prüfung.tsh", "テスト.tsh", "übung", "naïve.v2.tsh", "é.tsh", "Ünïcödé prog.tsh",
+			// characters whose other-case form has another length in UTF-8 (İ, the Kelvin and Ohm signs, ẞ, Ⱥ, Ⱦ, ſ, ı), combining marks, a 4-byte character
+			"İstanbul.tsh", "ȺȾ.tsh", "\u212A.tsh", "\u2126.v2.tsh", "GROẞ.tsh", "ſtraße.tsh", "dıştan.tsh", "e\u0301cole.tsh", "😀.tsh", "a\u200bb.tsh",
 			// an inner extension that is the extension of a target; blanks at the edges of the name
 			"deploy.sh.tsh", "setup.bat.tsh", "install.sh.in", "run.bat.v2", "a.sh.b.tsh", "prog.tsh.tsh", "notes ", "report.tsh ", " lead.tsh", " both ends .tsh ",
 			// names a shell would expand (tsh is not a shell)
@@ -207,7 +211,9 @@ func c19Gen(r *Run, rng *gen.Rng, corpus []string) *c19Inv {
 		}
 		gw.Set(main, append(pre, gw.Get(main)...))
 	}
-	if rng.Chance(30) {
+	// (an invocation whose point is the input's NAME is mostly otherwise ordinary: a name is exercised
+	// by an accepted program and a valid option vector)
+	if rng.Chance(map[bool]int{false: 30, true: 14}[renamed]) {
 		victim := main
 		if len(gw.Closure) > 1 && rng.Chance(30) {
 			victim = rng.Pick(gw.Closure)
@@ -417,7 +423,7 @@ func c19Gen(r *Run, rng *gen.Rng, corpus []string) *c19Inv {
 	}
 	inv.OptShape = strings.Join(shape, " ")
 	// invalid vectors
-	if rng.Chance(22) {
+	if rng.Chance(map[bool]int{false: 22, true: 12}[renamed]) {
 		inv.Valid = false
 		switch rng.Intn(11) {
 		case 0:
